@@ -68,7 +68,12 @@ def is_minimal_num(b):
     return True
 
 
-@opaque(result='bool', facts=lambda b, r: [implies(len(b) == 0, not r)], max_len=3)
+def _bool_facts(b, r):
+    # CastToBool agrees with "the script number is non-zero" (for every length; stated and proved up to 9 bytes)
+    return [implies(len(b) == 0, not r), implies(len(b) <= 9, r == (script_num_decode(b) != 0))]
+
+
+@opaque(result='bool', facts=_bool_facts, max_len=9)
 def cast_to_bool(b):
     """CastToBool: any non-zero byte, except that a final 0x80 (negative zero) does not count"""
     i = 0
